@@ -10,10 +10,17 @@ Three verdicts per case: implementation, model (transcription of the code), spec
   implementation != model                     -> VIOLATION (the proven model no longer describes the code)
   implementation == model, spec disagrees     -> D12 class while D12 is `open` in KNOWN_FINDINGS.jsonl: KNOWN-FINDING
                                                  anything else: VIOLATION
-When D12 is not `open` any more (repaired: duplicates_by value+cfg) the model used is `enum_check_fixed`
-(proved: rejects exactly the property's disjunction), so the check then DEMANDS the rejection.
+The model is the pass AS IT IS NOW: `enum_check_repaired` (D12 repaired by 3c1cc51: duplicates_by value+cfg; D16
+by 717250d: no negative number on a field that is not int; D17 by e1d126c: every number of an int field inside
+the signed repr i{c}, c = max(8,w).next_power_of_two()), proved to reject exactly the property's disjunction
+(C15_reject_iff_after_repairs), so the check DEMANDS those rejections: a definition of the D12 / D16 / D17 class
+that the generator accepts is a VIOLATION (only a D12 entry that is `open` again in KNOWN_FINDINGS.jsonl turns
+the D12 class back into a known finding).
+For the representability rule (D16 / D17) there is a fourth, independent voice: a python oracle computed from the
+abstract definition (numbers by "previous + 1", base type, width); it must agree with the Coq spec's class flags,
+with the implementation's verdict / error kind, and with the bounds printed in the implementation's message.
 """
-import collections, itertools, json, os, random
+import collections, itertools, json, os, random, re
 import vlib, adef
 from checks import gen_common
 
@@ -31,12 +38,22 @@ RULE = ("one inline enum as the conversion of a field in an otherwise valid regi
         "pool {implicit, 0, 1, 2^w-1, 2^w, -1, default, catch_all} x try/non-try (quick and thorough; thorough adds width 4 "
         "and length 4 at widths 1..2). RANDOM part: widths 1..16, 0..8 variants (or full implicit coverage up to 2^6), values "
         "implicit/explicit/default/catch_all in any order with gaps, repeated numbers under different names (D12 class), "
-        "out-of-range, negative, cfg-gated variants, uint/int base, DSL/JSON/YAML/TOML. Real transform_* vs Coq model "
+        "out-of-range, negative, cfg-gated variants, uint/int/bool base, DSL/JSON/YAML/TOML. REPRESENTABILITY (D16/D17): exhaustive "
+        "int part (w=8 over {implicit,0,127,128,-128,-129,default,catch_all}, w=4 over {implicit,0,15,16,-1,-128,-129,default}), "
+        "exhaustive bool part (w=1, lists with a negative number), random int fields biased to widths 4/8/12/16 with numbers "
+        "at -2^(c-1)-1..-2^(c-1)+1 and 2^(c-1)-2..2^(c-1)+1 both explicit and as implicit successor of the explicit neighbour, "
+        "negative numbers (explicit and implicit successor of a negative) on uint/bool fields; python oracle for that rule. "
+        "Real transform_* vs Coq model "
         "(vm_compute on the real MIR) vs Coq spec; compared: accept/reject, error kind + names, emitted enum "
         "(repr, From/TryFrom, discriminants, default/catch-all flags). distinct = distinct (width, base, try, variant list)")
 
 VNAMES = ["Aa", "Bb", "Cc", "Dd", "Ee", "Ff", "Gg", "Hh", "Ii", "Jj", "Kk", "Ll"]
-MODEL_FN = ('(fun d => c15_result d ++ "@" ++ c15_result_fixed d ++ "@" ++ c15_spec d)')
+# pass as it is now @ same with D12 open again @ the pass before the repairs of D16/D17 @ the property (with class flags)
+def model_fn(is_open):
+    """the second voice is only evaluated (it costs a quarter of the model time) when a D12 entry is `open` again"""
+    second = "c15_result_repaired_d12_open d" if is_open else '"-"'
+    return ('(fun d => c15_result_repaired d ++ "@" ++ ' + second + ' ++ "@" ++ c15_result_fixed d '
+            '++ "@" ++ c15_spec_repaired d)')
 
 
 def vname(i):
@@ -54,6 +71,81 @@ def mk_def(width, base, values, use_try, cfgs=None, size=None):
             "objects": [reg]}
 
 
+def carrier_bits(w):
+    b = 8
+    while b < w:
+        b *= 2
+    return b
+
+
+def numbers_of(values):
+    """the property's numbering: explicit numbers are kept, everything else is previous + 1 (0 in first position)"""
+    out, last = [], None
+    for v in values:
+        n = v if isinstance(v, int) else (0 if last is None else last + 1)
+        out.append(n)
+        last = n
+    return out
+
+
+def py_sites(d):
+    """every inline enum of the abstract definition: (object, field, base, width, values)"""
+    for o, _ in adef.walk(d["objects"]):
+        for _, fields in adef.field_sets(o):
+            for f in fields:
+                c = f.get("conv")
+                if c and c["type"] == "enum":
+                    end = f["end"] if f["end"] is not None else f["start"] + 1
+                    yield o["name"], f["name"], f["base"], max(0, end - f["start"]), [v["value"] for v in c["variants"]]
+
+
+def py_oracle(d):
+    """PYTHON ORACLE for the representability rule, from the property text: -> set of classes present in d.
+    d16: a number below 0 on a field that is not int; d17: a number outside -2^(c-1) .. 2^(c-1)-1 on an int field."""
+    out = set()
+    for _, _, base, w, values in py_sites(d):
+        nums = numbers_of(values)
+        if base != "int":
+            if any(n < 0 for n in nums):
+                out.add("d16")
+        else:
+            c = carrier_bits(w)
+            if any(n < -(2 ** (c - 1)) or n > 2 ** (c - 1) - 1 for n in nums):
+                out.add("d17")
+    return out
+
+
+REPR_MSG = re.compile(r'does not fit the i(\d+) representation of enum "[^"]*" in object "([^"]*)" on field "([^"]*)": '
+                      r'-?\d+ \(min = (-?\d+), max = (-?\d+)\)$')
+
+
+def oracle_check(d, impl, spec, message):
+    """-> None or a violation detail: python oracle vs Coq spec flags vs implementation (verdict, kind, printed bounds)"""
+    py = py_oracle(d)
+    flags = set(spec.split(":")[1:]) & {"d16", "d17"}
+    if py != flags:
+        return {"what": "the python oracle and the Coq spec disagree on the representability rule (D16/D17 classes)",
+                "python_oracle": sorted(py), "spec": spec}
+    kind = impl.split(":")[1] if impl.startswith("error:") else None
+    if impl.startswith("ok#") and py:
+        return {"what": "ACCEPTED although a variant's number is not representable in the enum's repr (defect %s is back)"
+                        % "/".join(sorted(x.upper() for x in py)), "python_oracle": sorted(py), "implementation": impl[:300]}
+    if kind == "enum_value_too_low" and "d16" not in py:
+        return {"what": "rejected as `too low` but no field that is not int has a negative number", "python_oracle": sorted(py)}
+    if kind == "enum_value_repr" and "d17" not in py:
+        return {"what": "rejected as not fitting the repr but every int field's numbers fit", "python_oracle": sorted(py)}
+    if kind == "enum_value_repr":
+        m = REPR_MSG.search(message or "")
+        if not m:
+            return {"what": "message of the repr rejection has an unexpected shape", "message": message}
+        ws = [w for (o, f, base, w, _) in py_sites(d) if (o, f) == (m.group(2), m.group(3)) and base == "int"]
+        want = [(carrier_bits(w), -(2 ** (carrier_bits(w) - 1)), 2 ** (carrier_bits(w) - 1) - 1) for w in ws]
+        got = (int(m.group(1)), int(m.group(4)), int(m.group(5)))
+        if got not in want:
+            return {"what": "the repr rejection prints other bounds than the signed repr of the field", "printed": got, "expected_one_of": want}
+    return None
+
+
 def exhaustive_defs(tier):
     out = []
     plan = [(1, 3), (2, 3), (3, 3)]
@@ -69,11 +161,26 @@ def exhaustive_defs(tier):
             for values in itertools.product(pool, repeat=n):
                 for t in (False, True):
                     out.append((mk_def(w, "uint", list(values), t), "dsl", ("exh", w, n)))
+    # int fields: numbers around the ends of the signed repr i8 (explicit, and implicit successors of them)
+    iplan = [(8, [None, 0, 127, 128, -128, -129, "default", "catch_all"], 3 if tier == "quick" else 4),
+             (4, [None, 0, 15, 16, -1, -128, -129, "default"], 2 if tier == "quick" else 3)]
+    for w, pool, maxlen in iplan:
+        for n in range(0, maxlen + 1):
+            for values in itertools.product(pool, repeat=n):
+                for t in (False, True):
+                    out.append((mk_def(w, "int", list(values), t), "dsl", ("exh", w, n)))
+    # bool fields: only lists with a negative number (a bool field with an enum the pass accepts is rejected by a LATER
+    # pass, bool_fields_checked, which this model does not contain)
+    for n in range(1, 4):
+        for values in itertools.product([None, 0, 1, -1, -2, "default"], repeat=n):
+            if any(x < 0 for x in numbers_of(values)):
+                out.append((mk_def(1, "bool", list(values), n % 2 == 0), "dsl", ("exh", 1, n)))
     return out
 
 
-def random_values(rng, w):
+def random_values(rng, w, base="uint"):
     hi = 2 ** w - 1
+    half = 2 ** (carrier_bits(w) - 1)
     r = rng.random()
     if r < 0.12 and w <= 6:           # full implicit coverage, sometimes with one hole or one extra
         n = 2 ** w + rng.choice([0, 0, 0, -1, 1])
@@ -84,9 +191,18 @@ def random_values(rng, w):
     n = rng.choice([0, 1, 1, 2, 2, 3, 3, 4, 5, 6, 8])
     vals = []
     used = []
+    succ = False
     for i in range(n):
         k = rng.random()
-        if k < 0.35:
+        if succ:
+            v, succ = None, False      # implicit successor of a boundary number
+        elif base == "int" and k < 0.22:
+            v = rng.choice([-half - 1, -half - 1, -half, -half, -half + 1, half - 2, half - 1, half - 1, half, half, half + 1])
+            succ = rng.random() < 0.5
+        elif base != "int" and k < 0.08:
+            v = rng.choice([-1, -1, -2, -2, -3])
+            succ = rng.random() < 0.6
+        elif k < 0.35:
             v = None
         elif k < 0.55:
             v = rng.choice([0, 1, 2, 3, hi // 2, max(0, hi - 1), hi])
@@ -107,9 +223,17 @@ def random_values(rng, w):
 
 
 def random_def(rng):
-    w = rng.choice([1, 1, 2, 2, 3, 4, 5, 6, 7, 8, 8, 9, 10, 12, 15, 16, 16])
-    base = rng.choice(["uint", "uint", "uint", "int"])
-    values = random_values(rng, w)
+    base = rng.choice(["uint", "uint", "uint", "int", "int", "bool"])
+    if base == "int":
+        w = rng.choice([4, 4, 8, 8, 8, 12, 12, 16, 16, 16, 1, 2, 3, 5, 7, 9, 15])
+    elif base == "bool":
+        w = 1
+    else:
+        w = rng.choice([1, 1, 2, 2, 3, 4, 5, 6, 7, 8, 8, 9, 10, 12, 15, 16, 16])
+    values = random_values(rng, w, base)
+    if base == "bool":                 # see exhaustive_defs: keep bool fields inside the enum pass's reject set
+        if not any(x < 0 for x in numbers_of(values)):
+            values.insert(rng.randrange(0, len(values) + 1), rng.choice([-1, -1, -2]))
     cfgs = None
     if values and rng.random() < 0.12:
         cfgs = [rng.choice([None, None, 'xfeat', 'yfeat']) for _ in values]
@@ -118,11 +242,12 @@ def random_def(rng):
         d["objects"][0]["size_bits"] = 8 * ((w + 7) // 8)
     if rng.random() < 0.10:            # several enums: command in/out + nested block, first error must win in pre-order
         w2 = rng.choice([1, 2, 3, 8])
-        v2 = random_values(rng, w2)
+        b2, b3 = rng.choice(["uint", "uint", "int"]), rng.choice(["uint", "uint", "int"])
+        v2 = random_values(rng, w2, b2)
         w3 = rng.choice([1, 2, 4])
-        v3 = random_values(rng, w3)
-        f2 = adef.mk_field("beta", "uint", 0, w2, conv=adef.mk_enum("Eo", [adef.mk_variant(vname(i), v) for i, v in enumerate(v2)], use_try=rng.random() < 0.5))
-        f3 = adef.mk_field("gamma", "uint", 0, w3, conv=adef.mk_enum("Ei", [adef.mk_variant(vname(i), v) for i, v in enumerate(v3)], use_try=rng.random() < 0.5))
+        v3 = random_values(rng, w3, b3)
+        f2 = adef.mk_field("beta", b2, 0, w2, conv=adef.mk_enum("Eo", [adef.mk_variant(vname(i), v) for i, v in enumerate(v2)], use_try=rng.random() < 0.5))
+        f3 = adef.mk_field("gamma", b3, 0, w3, conv=adef.mk_enum("Ei", [adef.mk_variant(vname(i), v) for i, v in enumerate(v3)], use_try=rng.random() < 0.5))
         cmd = adef.mk_command("Cm", 1, size_bits_in=8, size_bits_out=8, fields_in=[f3], fields_out=[f2])
         objs = [adef.mk_block("Blk", [cmd], address_offset=10)] + d["objects"] if rng.random() < 0.5 else d["objects"] + [adef.mk_block("Blk", [cmd], address_offset=10)]
         d["objects"] = objs
@@ -165,34 +290,44 @@ def d12_open():
     return found
 
 
-def judge(impl, mstr, is_open):
-    """-> (kind, detail); kind in ok / violation / known.  mstr = 'model@model_fixed@spec'."""
+def judge(impl, mstr, is_open, d=None, message=None):
+    """-> (kind, detail); kind in ok / violation / known.  mstr = 'model_now@model_now_with_D12_open@model_before_D16_D17@spec'."""
     try:
-        m_code, m_fixed, spec = mstr.split("@")
+        m_now, m_d12, m_before, spec = mstr.split("@")
     except ValueError:
         return "violation", {"what": "model evaluation failed", "model_output": mstr[:600]}
-    model = m_code if is_open else m_fixed
+    model = m_d12 if is_open else m_now
+    flags = set(spec.split(":")[1:])
     if impl != model:
-        what = "the real generator disagrees with the proven model of enum_values_checked / transform_enum"
-        if is_open and impl == m_fixed:
+        what = "the real generator disagrees with the proven model of enum_values_checked (as repaired: D12, D16, D17) / transform_enum"
+        if is_open and impl == m_now:
             what += (" — it behaves like the REPAIRED pass (duplicates by value+cfg) although D12 is still `open` in "
                      "KNOWN_FINDINGS.jsonl; set its status to \"fixed\"")
-        if not is_open and impl == m_code:
+        elif not is_open and "d12" in flags and impl.startswith("ok#"):
             what += " — it still shows defect D12 although KNOWN_FINDINGS.jsonl no longer lists it as open"
+        elif impl == m_before and flags & {"d16", "d17"}:
+            back = "/".join(sorted(x.upper() for x in flags & {"d16", "d17"}))
+            what += (f" — it behaves like the pass BEFORE the repair of {back} (717250d: negative number on a field that is not int; "
+                     f"e1d126c: number outside the signed repr of an int field): defect {back} is back")
         return "violation", {"what": what, "implementation": impl, "model": model, "spec": spec}
+    if d is not None:
+        bad = oracle_check(d, impl, spec, message)
+        if bad:
+            bad.update({"implementation": impl, "model": model, "spec": spec})
+            return "violation", bad
     impl_acc = impl.startswith("ok#")
     if impl == "panic":
         return "ok", None          # w >= 127: outside the property's widths; model agrees (regression cases only)
     spec_acc = spec.startswith("accept")
     if impl_acc == spec_acc:
         return "ok", None
-    if is_open and impl_acc and not spec_acc and spec.endswith(":d12"):
+    if is_open and impl_acc and not spec_acc and "d12" in flags and not flags & {"d16", "d17"}:
         return "known", None
     return "violation", {"what": "implementation and model agree but contradict the property's rule (spec evaluated in Coq)",
                          "implementation": impl, "model": model, "spec": spec}
 
 
-def evaluate(ctx, exe, items, tag):
+def evaluate(ctx, exe, items, tag, is_open=False):
     """items: list of (adef, syntax, meta). Returns per-item (case, impl, modelstring)."""
     rng = random.Random(ctx.seed + 77)
     cases = []
@@ -208,7 +343,7 @@ def evaluate(ctx, exe, items, tag):
             t = None
         if t is not None:
             terms.append((c["id"], t))
-    model = gen_common.eval_model(ctx, ["Enum"], MODEL_FN, terms, tag=tag + "_model")
+    model = gen_common.eval_model(ctx, ["Enum"], model_fn(is_open), terms, tag=tag + "_model")
     out = []
     for c in cases:
         r = res[c["id"]]
@@ -233,10 +368,21 @@ def run(ctx):
         items.append((mk_def(w, "uint", [1, None], True, size=136), "dsl", ("wide", w, 2)))
     # the D12 witness itself, always
     items.append((mk_def(2, "uint", [1, 1], True), "dsl", ("d12", 2, 2)))
+    # the D16 / D17 witnesses and their accepted neighbours, always (all four syntaxes)
+    for syn in ("dsl", "json", "yaml", "toml"):
+        items.append((mk_def(8, "uint", [-1, "default"], False), syn, ("d16", 8, 2)))
+        items.append((mk_def(1, "bool", [-1, None], True), syn, ("d16", 1, 2)))
+        items.append((mk_def(8, "int", [None, 255], True), syn, ("d17", 8, 2)))
+        items.append((mk_def(16, "int", [None, 0xffff], True), syn, ("d17", 16, 2)))
+        items.append((mk_def(16, "int", [32767, None], True), syn, ("d17", 16, 2)))
+        items.append((mk_def(12, "int", [-32769, "catch_all"], False), syn, ("d17", 12, 2)))
+        items.append((mk_def(8, "int", [-128, 127], True), syn, ("d17ok", 8, 2)))
+        items.append((mk_def(4, "int", [-3], True), syn, ("d17ok", 4, 1)))
+        items.append((mk_def(12, "int", [-32768, None], True), syn, ("d17ok", 12, 2)))
     n_rand = 1500 if ctx.tier == "quick" else 20000
     for i in range(n_rand):
         items.append((random_def(rng), rng.choice(["dsl", "dsl", "dsl", "json", "yaml", "toml"]), ("rnd", 0, 0)))
-    results = evaluate(ctx, exe, items, "c")
+    results = evaluate(ctx, exe, items, "c", is_open)
     hist = collections.Counter()
     distinct = set()
     violations, known = [], []
@@ -251,10 +397,14 @@ def run(ctx):
                 violations.append((c, d, {"what": "generator died without producing a MIR", "implementation": impl, "message": r.get("message")}))
             continue
         hist[impl.split(":")[1] if impl.startswith("error:") else impl.split("#")[0]] += 1
-        kind, detail = judge(impl, mstr, is_open)
+        kind, detail = judge(impl, mstr, is_open, d, r.get("message"))
         parts = mstr.split("@")
-        if len(parts) == 3:
-            hist["spec_" + parts[2]] += 1
+        if len(parts) == 4:
+            hist["spec_" + parts[3]] += 1
+            for cl in py_oracle(d):
+                hist["oracle_" + cl + ("_accepted" if impl.startswith("ok#") else "_rejected")] += 1
+        for _, _, base, w, _ in py_sites(d):
+            hist["site_" + base] += 1
         if kind == "violation":
             detail["message"] = r.get("message")
             violations.append((c, d, detail))
@@ -263,9 +413,14 @@ def run(ctx):
     total = len(items)
     acc = hist["ok"] / max(1, total)
     if violations:
-        violations.sort(key=lambda v: len(v[0]["text"]))
+        # an ACCEPTED definition that must be rejected (or the converse) first, then differences in the reported error
+        def soft(v):
+            i, m = v[2].get("implementation"), v[2].get("model")
+            return isinstance(i, str) and isinstance(m, str) and i.startswith("ok#") == m.startswith("ok#")
+        violations.sort(key=lambda v: (soft(v), len(v[0]["text"])))
         c, d, detail = violations[0]
-        rep = {"failing_input": {"syntax": c["syntax"], "text": c["text"], "adef": d}, "disagreements": len(violations)}
+        rep = {"failing_input": {"syntax": c["syntax"], "text": c["text"], "adef": d}, "disagreements": len(violations),
+               "verdict_mismatches": sum(1 for v in violations if not soft(v))}
         rep.update(detail)
         vlib.violation(ctx, rep)
     elif not info["ok"]:
@@ -278,7 +433,7 @@ def run(ctx):
                            f"(property: reject); smallest: {json.dumps(c['text'])} -> {impl}")
     elif is_open and not violations:
         ctx.log("warning: D12 is listed open but no D12-class case was accepted in this run")
-    if not (0.15 <= acc <= 0.9):
+    if not (0.10 <= acc <= 0.9):     # the exhaustive int / bool pools are reject-heavy (every bool case is a rejection by design)
         ctx.log(f"warning: accepted ratio {acc:.2f} outside the sanity band")
     chk = None
     if ctx.tier == "thorough" and info["ok"]:
@@ -289,12 +444,15 @@ def run(ctx):
     samples = []
     for i in (0, n_exh // 2, n_exh + 3, n_exh + 10, total - 1):
         (d, syntax, meta), (c, impl, mstr, r) = items[i], results[i]
-        samples.append({"syntax": syntax, "text": c["text"][:1500], "implementation": impl[:400], "model@fixed@spec": (mstr or "")[:800]})
+        samples.append({"syntax": syntax, "text": c["text"][:1500], "implementation": impl[:400],
+                        "model_now@d12_open@before_d16_d17@spec": (mstr or "")[:800]})
     vlib.write_evidence(ctx, info, {
         "evaluations": total, "distinct_nontrivial": len(distinct), "rule": RULE, "samples": samples,
         "exhaustive": True, "exhaustive_space": {"cases": n_exh, "what": "widths x variant lists over the value pool x try, see rule"},
         "random_cases": n_rand, "input_distribution": dict(hist), "accepted_ratio": round(acc, 3),
         "disagreements": len(violations), "d12_status": "open" if is_open else "not open (model = repaired pass)",
+        "d16_d17": "model = pass with both repairs; an accepted definition of either class is a violation; counts: see "
+                   "input_distribution oracle_d16_* / oracle_d17_* (python oracle) and enum_value_too_low / enum_value_repr",
         "d12_class_cases_accepted": len(known), **({"coqchk": chk} if chk else {})})
 
 
@@ -310,13 +468,14 @@ def replay(ctx, path):
     res = gen_common.run_gen(ctx, exe, [{"id": "r", "syntax": fi["syntax"], "text": fi["text"], "name": "Dev", "want": ["mir", "facts"]}])
     impl = impl_string(res["r"])
     t = gen_common.mir_term(res["r"])
-    mstr = gen_common.eval_model(ctx, ["Enum"], MODEL_FN, [("r", t)])["r"] if t else None
+    is_open = bool(d12_open())
+    mstr = gen_common.eval_model(ctx, ["Enum"], model_fn(is_open), [("r", t)])["r"] if t else None
     ctx.log("impl:", impl)
-    ctx.log("model@fixed@spec:", mstr)
+    ctx.log("model_now@d12_open@before_d16_d17@spec:", mstr)
     if mstr is None:
         return
     is_open = bool(d12_open())
-    kind, detail = judge(impl, mstr, is_open)
+    kind, detail = judge(impl, mstr, is_open, fi.get("adef"), res["r"].get("message"))
     if kind == "violation":
         detail["failing_input"] = fi
         vlib.violation(ctx, detail)
